@@ -170,14 +170,17 @@ def record_from_tx(run: Run, n: int) -> list[dict[str, Any]]:
         vin, prevouts, prev_txs, extras = [], [], [], []
         for kind in kinds:
             key = bytes([2]) + r.randbytes(32)
-            ws = r.choice([b"\x51", bytes([33]) + key + b"\xac", b"\xab" + bytes([33]) + key + b"\xac\xab\x51"])
+            # (0xab inside pushes ahead of the real separators: a separator is an op code, found by walking the script and not by looking for the byte)
+            abkey = bytes([2]) + b"\xab" + r.randbytes(15) + b"\xab" + r.randbytes(15)
+            ws = r.choice([b"\x51", bytes([33]) + key + b"\xac", b"\xab" + bytes([33]) + key + b"\xac\xab\x51", bytes([33]) + abkey + b"\xad\xab" + bytes([33]) + key + b"\xac",
+                           b"\x03\xab\xab\xab\x75\xab" + bytes([33]) + abkey + b"\xac\xab\x51", b"\x4c\x02\xab\xab\x75" + bytes([33]) + key + b"\xac"])
             script_sig, wit, redeem, wscript = b"", [], b"", b""
             if kind == "p2pkh":
                 spk = b"\x76\xa9\x14" + hash160(key) + b"\x88\xac"
             elif kind == "bare":
                 spk = bytes([33]) + key + b"\xac"
             elif kind == "p2sh":
-                redeem = r.choice([bytes([33]) + key + b"\xac", b"\x51\xab" + bytes([33]) + key + b"\xac"])
+                redeem = r.choice([bytes([33]) + key + b"\xac", b"\x51\xab" + bytes([33]) + key + b"\xac", b"\x02\xab\xab\x75\xab" + bytes([33]) + abkey + b"\xac\xab\x51"])
                 spk = b"\xa9\x14" + hash160(redeem) + b"\x87"
                 script_sig = bytes([len(redeem)]) + redeem
             elif kind == "p2wpkh":
@@ -223,11 +226,10 @@ def record_from_tx(run: Run, n: int) -> list[dict[str, Any]]:
         for idx, kind in enumerate(kinds):
             hts = [1, 2, 3, 0x81, 0x82, 0x83] + ([0] if kind.startswith("p2tr") else [0x41, 0x1F])
             for ht in hts:
-                for codesep in ((0, 1) if kind in ("p2wsh", "p2sh-p2wsh", "p2sh") else (0,)):
+                for codesep in ((0, 1, 2, 3) if kind in ("p2wsh", "p2sh-p2wsh", "p2sh") else (0,)):
                     base = {"op": "from_tx", "kind": kind, "tx": tj, "idx": idx, "prevouts": pj, "ht": u32(ht), "codesep": codesep}
                     out = _dig(lambda: sig_hash.from_tx(prevouts, tx, idx, ht, codesep_index=codesep))
-                    if codesep and out == "refused":
-                        continue    # the script has no such separator: a refusal of the API, not of the BIPs
+                    # (a script with fewer separators than asked for has no such script code: refused, by the code and by the specification)
                     evs.append({**base, "out": out})
                     if pre is not None:
                         evs.append({**base, "route": "from_tx+precomputed",
@@ -334,7 +336,7 @@ def check(run: Run) -> None:
                 "with high words afterwards; taproot: 7 defined + undefined types x annex x extension; every route (direct, precomputed, "
                 "from_tx, PSBT, PsbtView). Non-trivial = an event whose digest is not a refusal")
     run.assumptions = ["SHA-256 is the JDK's; the preimages are assembled in TLA+ from the Wire serializers",
-                       "refusals of the API that no BIP defines (codesep index past the script, missing redeem script) are not asserted"]
+                       "refusals of the API that no BIP defines (a missing redeem script) are not asserted; a separator index past the script's separators is refused (no such script code)"]
     res = tlc.run("SigHashModel", cfg_text=MODEL_CFG, workers=8)
     run.tlc(res, "M SigHashModel commitment matrix")
     for v in res.violations:
